@@ -32,6 +32,10 @@ import (
 //   ctor  a constructor call: Eye(X) for X in 1..24, or Full/Zeros/Ones of the shape of value -X-1
 //   own   X.Scale(1) turned into a fresh tracked leaf by ResetGradContext(true): a private
 //         parameter initialised from (possibly shared) values
+//   many  a dozen calls in a row: Act "bcast" = value X expanded to 12 different shapes ([j, ...X's
+//         shape], j = 1..12; the last result is the new value); Act "bce" / "ce" = 12 evaluations of
+//         the world's shared BCE / CE loss object on private tensors of one fixed shape (the last
+//         loss is the new value)
 //   bp    BackPropagate(value X); X depends on no shared tracked tensor
 type GStep struct {
 	Kind  string     `json:"kind"`
@@ -146,7 +150,25 @@ func genC20(t *rapid.T) C20Case {
 				m.tracked = append(m.tracked, tracked)
 				m.random = append(m.random, random)
 			}
-			switch k := rapid.IntRange(0, 14).Draw(t, "kind"); {
+			switch k := rapid.IntRange(0, 15).Draw(t, "kind"); {
+			case k == 15:
+				st.Kind = "many"
+				st.Act = rapid.SampledFrom([]string{"bcast", "bcast", "bce", "ce"}).Draw(t, "manyact")
+				if st.Act == "bcast" {
+					var fit []int
+					for i, s := range m.shapes {
+						if len(s) <= 4 && ref.Prod(s) <= 64 {
+							fit = append(fit, i)
+						}
+					}
+					if len(fit) == 0 {
+						continue
+					}
+					st.X = rapid.SampledFrom(fit).Draw(t, "manyx")
+					add(append([]int{12}, m.shapes[st.X]...), m.tainted[st.X], m.tracked[st.X], m.random[st.X])
+				} else {
+					add([]int{}, false, true, false)
+				}
 			case k == 13:
 				x := rapid.SampledFrom(all).Draw(t, "ownx")
 				st.Kind, st.X = "own", x
@@ -271,6 +293,8 @@ func genC20(t *rapid.T) C20Case {
 type c20World struct {
 	shared []tensor.Tensor
 	fc     *layers.FC
+	bce    *losses.BCE
+	ce     *losses.CE
 }
 
 func buildWorld(c C20Case) (*c20World, error) {
@@ -304,6 +328,7 @@ func buildWorld(c C20Case) (*c20World, error) {
 	*ws[0].Value = lib.MustNew([]int{c.O}, c.W, true)
 	*ws[1].Value = lib.MustNew([]int{c.O}, c.B, true)
 	w.fc = fc
+	w.bce, w.ce = losses.NewBCE(), losses.NewCE()
 	return w, nil
 }
 
@@ -425,6 +450,30 @@ func runG(c C20Case, w *c20World, gp GProg) (res gResult) {
 					y, err = tensor.Zeros(x.Shape(), nil)
 				default:
 					y, err = tensor.Ones(x.Shape(), lib.Conf(true))
+				}
+			}
+		case "many":
+			switch st.Act {
+			case "bcast":
+				x, ok := get(st.X)
+				if !ok {
+					return
+				}
+				rnd = random[st.X]
+				for j := 1; j <= 12 && err == nil; j++ {
+					y, err = x.Broadcast(append([]int{j}, x.Shape()...))
+				}
+			default:
+				for j := 0; j < 12 && err == nil; j++ {
+					p := lib.MustNew([]int{2, 2}, []float64{0.3, 0.7, 0.9, 0.1 + 0.05*float64(j)}, true)
+					tg := lib.MustNew([]int{2, 2}, []float64{1, 0, 0.25, 0.75}, false)
+					if st.Act == "bce" {
+						pf, _ := p.Reshape([]int{4})
+						tf, _ := tg.Reshape([]int{4})
+						y, err = w.bce.Compute(pf, tf)
+					} else {
+						y, err = w.ce.Compute(p, tg)
+					}
 				}
 			}
 		case "own":
